@@ -579,7 +579,12 @@ class PteraTransformer(NodeTransformer):
                 wrapped_body.append(first)
                 body = body[1:]
 
-        new_body += self.visit_body(node.body)
+        stmts = list(node.body)
+        if not isinstance(stmts[-1], (ast.Return, ast.Raise)):
+            # Falling off the end returns None: make it explicit so that
+            # this way of completing also reports #value
+            stmts.append(ast.copy_location(ast.Return(value=None), stmts[-1]))
+        new_body += self.visit_body(stmts)
         new_body = self.delimit(
             new_body,
             ["#enter"],
